@@ -20,7 +20,7 @@ RULE = ("uniform-regime annotations of 0..25 lines in the 48 dialect points; eac
         "recording transform (modify / skip by falsy values) and inspect() with random look_for subsets and limits in "
         "{None,1,n-1,n,n+3}; non-trivial = n >= 3; distinct by (annotation text, form, checklines class)")
 REQUIRED = ["sparse-regime form comparisons", "form sequences compared", "databases compared", "one-shot pulls logged", "transform calls recorded",
-            "inspect results compared", "in-place edits of features with identical attribute columns compared"] + ["form=" + f for f in FORMS]
+            "inspect results compared", "in-place edits of features with identical attribute columns compared", "transforms that raise: outcomes observed"] + ["form=" + f for f in FORMS]
 ASSUMPTIONS = [
     "annotations are written in the uniform regime, so every window infers the same dialect and all forms are comparable",
     "for GTF annotations the FeatureDB form is a database built without inference (its content is then the plain annotation)",
@@ -105,6 +105,8 @@ def execute(ctx, case):
             inspect_case(ctx, case)
         elif kind == "aliasing":
             aliasing(ctx, case)
+        elif kind == "transform_raises":
+            transform_raises(ctx, case)
     finally:
         for v in contracts.drain():
             ctx.violation(case, v)
@@ -378,6 +380,48 @@ def aliasing(ctx, case):
         cleanup(paths)
 
 
+def transform_raises(ctx, case):
+    """A transform that raises at feature k (ValueError, KeyError, StopIteration from an unguarded next()): the failure
+    surfaces as an exception from the iteration / the import - the data never just ends there."""
+    import gffutils
+    from gffutils.iterators import DataIterator
+
+    text, lines, paths = prepare_files(ctx, case)
+    k, kind = case["k"], case["exc"]
+    n = len(lines)
+    try:
+        for form in case["forms"]:
+            for target in ("iterate", "create_db"):
+                seen = [0]
+
+                def tr(f):
+                    seen[0] += 1
+                    if seen[0] == k + 1:
+                        if kind == "StopIteration":
+                            return next(iter(()))       # the unguarded next() on an exhausted iterator
+                        raise {"ValueError": ValueError, "KeyError": KeyError}[kind]("harness: transform fails at feature %d" % k)
+                    return f
+                pulls = []
+                data, kw = make_source(ctx, form, paths, text, case["checklines"], pulls, transform=tr)
+                raised, got = None, None
+                try:
+                    if target == "iterate":
+                        got = len(list(DataIterator(data, checklines=case["checklines"], transform=tr, **kw)))
+                    else:
+                        db = gffutils.create_db(data, ":memory:", checklines=case["checklines"], transform=tr, **kw)
+                        got = db.count_features_of_type()
+                        db.conn.close()
+                except BaseException as ex:
+                    raised = ex
+                ctx.mon("transforms that raise: outcomes observed")
+                if raised is None:
+                    ctx.violation(case, {"why": "a transform raised %s at feature %d of %d but %s ended normally with %r features"
+                                                % (kind, k, n, target, got), "form": form, "text": text})
+                    return
+    finally:
+        cleanup(paths)
+
+
 def inspect_case(ctx, case):
     import gffutils
     from gffutils import inspect as I
@@ -490,6 +534,15 @@ def run(ctx):
         execute(ctx, case)
         ctx.case(("transform", F.text_of(items, D), plan, case["checklines"], case["forms"]), n >= 3,
                  sample={"plan": plan, "forms": case["forms"]} if rng.random() < 0.05 else None, cls="transform")
+    for _ in range(ctx.budget(60, 3000)):
+        D, items = annotation(rng)
+        n = sum(1 for it in items if it["t"] == "feat")
+        if n < 1:
+            continue
+        case = {"kind": "transform_raises", "D": D, "items": items, "k": rng.randrange(0, n), "exc": rng.choice(["ValueError", "KeyError", "StopIteration", "StopIteration"]),
+                "checklines": rng.choice([0, 1, 2, 10, n + 2]), "forms": rng.sample([f for f in FORMS if f != "FeatureDB"], 3)}
+        execute(ctx, case)
+        ctx.case(("transform_raises", F.text_of(items, D), case["k"], case["exc"], case["checklines"], case["forms"]), n >= 3, cls="transform raises")
     import copy
     for _ in range(ctx.budget(100, 5000)):
         D, items = annotation(rng)
